@@ -82,7 +82,7 @@ def gen_cases(ck):
                 mask = rng.choice([(1 << len(m)) - 1, rng.getrandbits(len(m))])
                 add(sg.with_polls(m, mask), [1], "write_failure_at_item", {"len": n, "fail_at_write": k}, failing=[0])
     # (c) random: 1..3 connections, several streams each, random interleaving and polls, some write failures
-    for i in range(1100 if quick else 10000):
+    for i in range(2000 if quick else 10000):
         nconn = rng.randrange(1, 4)
         tags = sg.Tags()
         seqs, hyp, failing = [], [], []
